@@ -1,6 +1,7 @@
 # C11 Isolation between clients and channels; broadcast reaches exactly its targets — ownership and keyed-access clauses
 import re
 from sa.rules import *
+import rules.wave3 as W3
 RC = "renet::remote_connection::RenetClient"
 FORBIDDEN = ("std::rc::Rc", "std::sync::Arc", "std::cell::RefCell", "std::cell::Cell", "std::cell::UnsafeCell", "std::sync::Mutex", "std::sync::RwLock", "std::sync::atomic", "std::cell::OnceCell", "std::sync::OnceLock")
 ALLOWED = ("bytes::Bytes",)
@@ -89,4 +90,12 @@ def rules(t):
             r.sites += rr.sites
             for v in rr.violations: r.bad(v.key, v.site, v.msg)
     out.append(r)
+    out.append(W3.broadcast_total(t, "C11.f"))
+    rr_ = RuleResult("C11.g", "the connection-wide packet sequence is advanced for every packet of every channel: acks of one channel's packets are never credited to another channel (shared with C01.h)", floor=1)
+    import rules.C01 as _SRC
+    for x_ in _SRC.rules(t):
+        if x_.id == "C01.h":
+            rr_.sites += x_.sites
+            for v_ in x_.violations: rr_.bad(v_.key, v_.site, v_.msg)
+    out.append(rr_)
     return out
